@@ -135,6 +135,21 @@ class Memo:
         return Memo.CACHE[key]
 
 
+    @classmethod
+    def good_setdefault(cls, word: bytes, even: bool) -> int:
+        flag = True if even else False
+        key = (bytes(word), flag)
+        got = Memo.CACHE.get(key, -1)
+        if got < 0:
+            total = sum(word) if flag else sum(word) + 1
+            got = Memo.CACHE.setdefault(key, total)   # exempt: same store, spelt setdefault; the key determines the value
+        return got
+
+    @classmethod
+    def bad_setdefault(cls, word: bytes, even: bool) -> int:
+        return Memo.CACHE.setdefault(bytes(word), sum(word) if even else sum(word) + 1)   # NOT exempt: `even` is not in the key
+
+
 @functools.lru_cache()
 def cached_bits(n: int) -> bitarray:
     return bitarray(n * [0])
